@@ -242,6 +242,37 @@ class RandomValues(Harness):
             JR.math = old
 
 
+class UniformIEEE(Harness):
+    """the same real JsonRandom._next_uniform, executed on IEEE binary64 proxies (round-to-nearest-even)."""
+    name = "UniformIEEE"
+    title = "real JsonRandom uniform sampling in IEEE-754 binary64: is the documented support [a, b) respected by doubles?"
+    what_symbolic = "the generator's draw u: any double in [0, 1); bounds (a, b) from a concrete set"
+    nontrivial_event = "every path"
+    pairs = [(10, 20), (0, 1), (-5, 5), (0.1, 0.3), (5000, 15000), (1, 100), (0.0, 0.1), (2, 5), (-1.5, 1e6)]
+    bounds = {"quick": "(a,b) in {(10,20),(0,1),(-5,5),(0.1,0.3),(5000,15000),(1,100),(0,0.1),(2,5),(-1.5,1e6)}; u any double in [0,1)",
+              "thorough": "same"}
+    reach = ("nontrivial",)
+    stubs = ("prng.random -> any finite double in [0,1) (z3 FloatingPoint, RNE)",)
+    assumptions = ("CPython float arithmetic is IEEE-754 binary64 with round-to-nearest-even",)
+    agreement_runs = 6
+
+    def cases(self, tier):
+        return [{"a": a, "b": b} for a, b in self.pairs]
+
+    def run(self, g, case):
+        class P(random.Random):
+            def random(self_inner):
+                return g.fp("u", 0.0, 1.0, hi_strict=True)
+        a, b = float(case["a"]), float(case["b"])
+        x = JsonRandom(prng=P())._next_uniform(min_value=a, max_value=b)
+        g.note("nontrivial")
+        g.observe(x)
+        g.require(x >= a, "C18.uniform-below-support(ieee)", f"a double below a={a} was produced")
+        g.require(x <= b, "C18.uniform-above-support(ieee)", f"a double above b={b} was produced")
+        g.require(x < b, "C18.uniform-upper-end-reached-by-rounding",
+                  f"_next_uniform({a}, {b}) returns exactly b for a draw close to 1 although a <= x < b is documented")
+
+
 class LegacyKeys(Harness):
     name = "LegacyKeys"
     title = "real Session.setup: deprecated spellings set the same parameter as their replacement"
@@ -348,6 +379,10 @@ class C18_Expansion(Expansion):
 
 
 class C18_RandomValues(RandomValues):
+    pass
+
+
+class C18_UniformIEEE(UniformIEEE):
     pass
 
 
